@@ -20,6 +20,7 @@ Supports expressions like:
 import ast
 import re
 import statistics
+import types
 import warnings
 from datetime import date as date_type
 from typing import Any, Dict, List, Optional, Set, Callable, Union
@@ -921,7 +922,13 @@ class TransactionEvaluator:
         raise ExpressionError(f"Cannot evaluate node type: {type(node).__name__}")
 
     def _eval_Expression(self, node: ast.Expression) -> Any:
-        return self.evaluate(node.body)
+        result = self.evaluate(node.body)
+        if isinstance(result, types.GeneratorType):
+            # A bare generator expression is only useful as an argument of
+            # sum()/any()/next(); as the value of a whole expression it would leak a
+            # lazy generator object (and its repr) to callers. Materialize it.
+            result = list(result)
+        return result
 
     def _eval_Constant(self, node: ast.Constant) -> Any:
         return node.value
